@@ -87,24 +87,28 @@ __CPROVER_assigns(v->d, v->n)
     v->d = nd; v->n = n;
 }
 
-/* resize(n, val) */
+/* resize(n, val): shrinking never reallocates (retained elements keep their addresses - C++ guarantee); growing hands out
+ * a new buffer in the model (the old one stays allocated and unchanged) */
 void vec_u8_resize_val(struct vec_u8 *v, size_t n, uint8_t val)
 __CPROVER_requires(__CPROVER_rw_ok(v, sizeof(*v)))
 __CPROVER_requires(v->n <= VEC_MAX)
 __CPROVER_requires(v->n == 0 || __CPROVER_r_ok(v->d, v->n))
 __CPROVER_requires(n <= VEC_MAX)
 __CPROVER_ensures(v->n == n)
-__CPROVER_ensures(__CPROVER_is_fresh(v->d, n))
-__CPROVER_ensures((g_k < n && g_k < __CPROVER_old(v->n)) ==> v->d[g_k] == (__CPROVER_old(v->d))[g_k])
+__CPROVER_ensures(n <= __CPROVER_old(v->n) ==> v->d == __CPROVER_old(v->d))
+__CPROVER_ensures(n > __CPROVER_old(v->n) ==> __CPROVER_is_fresh(v->d, n))
+__CPROVER_ensures((n > __CPROVER_old(v->n) && g_k < __CPROVER_old(v->n)) ==> v->d[g_k] == (__CPROVER_old(v->d))[g_k])
 __CPROVER_ensures((g_k < n && g_k >= __CPROVER_old(v->n)) ==> v->d[g_k] == val)
 __CPROVER_assigns(v->d, v->n)
 {
-    uint8_t *nd = (uint8_t *)malloc(n ? n : 1);
-    __CPROVER_assume(nd != 0);
-    size_t keep = v->n < n ? v->n : n;
-    if (keep) memcpy(nd, v->d, keep);
-    if (n > keep) memset(nd + keep, val, n - keep);
-    v->d = nd; v->n = n;
+    if (n > v->n) {
+        uint8_t *nd = (uint8_t *)malloc(n ? n : 1);
+        __CPROVER_assume(nd != 0);
+        if (v->n) memcpy(nd, v->d, v->n);
+        memset(nd + v->n, val, n - v->n);
+        v->d = nd;
+    }
+    v->n = n;
 }
 
 static inline void vec_u8_clear(struct vec_u8 *v) { v->n = 0; }
@@ -126,30 +130,41 @@ __CPROVER_assigns(v->d, v->n)
 }
 
 /* =========================================================== std::vector<std::vector<uint8_t>>
- * Encoder::cmpFrames.  Only the last frame is materialised; frames that are no longer the last one
- * cannot be reached through any operation the library uses (back(), push_back, empty, clear, move). */
+ * Encoder::cmpFrames.  Only the LAST frame is materialised, in one buffer of FRAME_CAP bytes whose address never changes:
+ * the library reaches frames only through back(), push_back, empty, clear and move, so frames that are no longer the last
+ * one are unobservable to it, and so is the identity of the last frame's storage.  push_back(t) therefore = "archive the
+ * current frame (the ghost monitor has checked it at that moment) and re-initialise the buffer from t".
+ * Because the underlying object is FRAME_CAP bytes, writes are bounded by the contracts (cursor + length <= back.n), not by
+ * CBMC's object bounds. */
+#define FRAME_CAP 65559ul      /* 65535 + 24: largest maxBytesPerMessage of the C07 domain */
 static inline struct vec_frames vec_frames_make_empty(void)
 {
-    struct vec_frames f; f.n = 0; f.back.d = (uint8_t *)malloc(0); f.back.n = 0; return f;
+    struct vec_frames f; f.n = 0; f.back.d = (uint8_t *)malloc(FRAME_CAP); f.back.n = 0;
+    __CPROVER_assume(f.back.d != 0);
+    return f;
 }
 
-/* push_back(const vector<uint8_t>& t): the new last frame is a deep copy of t */
+/* push_back(const vector<uint8_t>& t): the new last frame is a copy of t */
 void vec_frames_push_back(struct vec_frames *f, const struct vec_u8 *t)
-__CPROVER_requires(__CPROVER_rw_ok(f, sizeof(*f)) && __CPROVER_r_ok(t, sizeof(*t)) && t->n <= VEC_MAX && __CPROVER_r_ok(t->d, t->n))
+__CPROVER_requires(__CPROVER_rw_ok(f, sizeof(*f)) && __CPROVER_r_ok(t, sizeof(*t)) && t->n <= FRAME_CAP && (t->n == 0 || __CPROVER_r_ok(t->d, t->n)))
+__CPROVER_requires(__CPROVER_w_ok(f->back.d, FRAME_CAP))
 __CPROVER_requires(f->n < 0x7fffffffffffffffUL)
 __CPROVER_ensures(f->n == __CPROVER_old(f->n) + 1)
-__CPROVER_ensures(f->back.n == t->n && __CPROVER_is_fresh(f->back.d, t->n))
+__CPROVER_ensures(f->back.n == t->n && f->back.d == __CPROVER_old(f->back.d))
 __CPROVER_ensures(g_k < t->n ==> f->back.d[g_k] == t->d[g_k])
-__CPROVER_assigns(f->n, f->back)
+__CPROVER_assigns(f->n, f->back.n, __CPROVER_object_upto(f->back.d, FRAME_CAP))
 {
-    f->back = vec_u8_copy(t); f->n += 1;
+    if (t->n) memcpy(f->back.d, t->d, t->n);
+    f->back.n = t->n; f->n += 1;
 }
 
 static inline void vec_frames_clear(struct vec_frames *f) { f->n = 0; f->back.n = 0; }
 
 static inline struct vec_frames vec_frames_move(struct vec_frames *o)
 {
-    struct vec_frames f = *o; o->n = 0; o->back.d = (uint8_t *)malloc(0); o->back.n = 0; return f;
+    struct vec_frames f = *o; o->n = 0; o->back.d = (uint8_t *)malloc(FRAME_CAP); o->back.n = 0;
+    __CPROVER_assume(o->back.d != 0);
+    return f;
 }
 
 /* =========================================================== std::vector<T> for class / smart-pointer elements */
@@ -203,6 +218,30 @@ static inline void map_slot_erase(struct map_slot *m, struct ASAM_CMP_Decoder_En
     __CPROVER_assert(k.deviceId == m->key.deviceId && k.streamId == m->key.streamId, "[[C18:map_key_is_frame_endpoint]] map key is the endpoint of the current frame");
     g_map_ops += 1;
     m->present = 0;
+}
+/* emplace / try_emplace: inserts only if the key is absent; an existing element is left untouched (value moved in: shallow copy) */
+static inline void map_slot_emplace(struct map_slot *m, struct ASAM_CMP_Decoder_Endpoint k, struct ASAM_CMP_Decoder_SegmentedPacket *v)
+{
+    __CPROVER_assert(k.deviceId == m->key.deviceId && k.streamId == m->key.streamId, "[[C18:map_key_is_frame_endpoint]] map key is the endpoint of the current frame");
+    g_map_ops += 1;
+    if (!m->present) { m->value = *v; m->present = 1; }
+}
+static inline void map_slot_insert_or_assign(struct map_slot *m, struct ASAM_CMP_Decoder_Endpoint k, struct ASAM_CMP_Decoder_SegmentedPacket *v)
+{
+    __CPROVER_assert(k.deviceId == m->key.deviceId && k.streamId == m->key.streamId, "[[C18:map_key_is_frame_endpoint]] map key is the endpoint of the current frame");
+    g_map_ops += 1;
+    m->value = *v; m->present = 1;
+}
+static inline size_t map_slot_count(struct map_slot *m, struct ASAM_CMP_Decoder_Endpoint k)
+{
+    __CPROVER_assert(k.deviceId == m->key.deviceId && k.streamId == m->key.streamId, "[[C18:map_key_is_frame_endpoint]] map key is the endpoint of the current frame");
+    return m->present ? 1 : 0;
+}
+/* clear(): touches every endpoint's slot - never allowed while decoding one endpoint's frame */
+static inline void map_slot_clear(struct map_slot *m)
+{
+    __CPROVER_assert(0, "[[C18:map_key_is_frame_endpoint C17:decode.foreign_input_touches_nothing]] clear() drops the pending messages of every endpoint");
+    g_map_ops += 1; m->present = 0;
 }
 #endif
 
